@@ -592,7 +592,7 @@ def resolve_var(computed, token, parent_style, parent_variables=()):
             computed, token, parent_style, parent_variables) or (token,)
 
     args = remove_whitespace(token.arguments)
-    variable_name = args[0].value.replace('-', '_')  # first arg is name
+    variable_name = f'__{args[0].value[2:]}'  # first arg is name
     if variable_name in parent_variables:
         # Cyclic variables are invalid, handle them as undefined variables.
         return []
